@@ -186,6 +186,22 @@ def run_case(case):
             if any(b2 < a2 - 1e-12 * (1 + abs(a2)) for a2, b2 in zip(outs, outs[1:])):
                 res.fail("not_monotone", site, "output %d not monotone in its own input: %s -> %s" % (j, vals, outs), mask=mask)
                 return res
+        # the parameters applied to one row depend on ITS identity features (and context) only: another row's identity features
+        # must not matter (a conditioner that normalises with statistics of the current batch would make them matter)
+        if rows >= 2 and I_idx:
+            X3 = X.clone()
+            X3[1:, I_idx[0]] = X[1:, I_idx[0]] * 0.5 + (0.2 if unit else 0.31)       # (values in [0, 1] stay in [0.2, 0.7])
+            with torch.no_grad():
+                try:
+                    Y3, _ = call(X3)
+                except Exception as e:
+                    if type(e).__name__ != "InputOutsideDomain":
+                        raise
+                    Y3 = None
+            if Y3 is not None and bool(((Y3[0] - Y[0]).abs() > 1e-12 * (1 + Y[0].abs())).any()):
+                res.fail("other_rows_matter", site, "changing identity features of the OTHER rows changed the outputs of row 0 (max %g; mask %s, %s)" % (
+                    float((Y3[0] - Y[0]).abs().max()), mask, "4D" if case["img"] else "2D"), mask=mask, direction="inverse" if case["inverse"] else "forward")
+                return res
         # Jacobian structure (row 0)
         J = torch.autograd.functional.jacobian(lambda v: call(torch.cat([v[None], X[1:]], 0))[0][0].reshape(-1), X[0].clone()).reshape(D, D)
         if not bool(torch.isfinite(J).all()):
